@@ -237,6 +237,7 @@ def run(ctx):
               'validation sets with injected ties/conflicting duplicates, fit(calibration_params) and the invalid-'
               'parameter table; distinct by (distances, labels, strategy, beta, min_rate); non-trivial = the '
               'validation set contains a tie or a label conflict' % n)
+  ctx.rule += " Plus the executions of the repository's own test suite recorded by the pytest tracing plugin (one case per test / per estimator object; distinct by test id)."
   pairs = core.generate(MOD, rs)
 
   def sig(recipe, tr, clause, pos):
